@@ -14,6 +14,9 @@ import Tickit.Driver.Common
          flush are pairwise disjoint, and every cell the flush changed was written by the window that owns it in the
          composition (the writer is identified by the foreground tag `id + 1` every window draws with) and lies in
          the damaged region (the rectangles handed to the root).
+  Second configuration (scroll oracle `m`): the library's mock terminal; `resize` there is `tickit_mockterm_resize` (the
+  harness sets the default pen first), modelled by the same `termResize` (`Proof/WinMockResize.lean`: `mockResize_screen`).
+  Handler instruction `F` / `f`: `tickit_renderbuffer_textf_at` with format "%*s" (`Model/WinTextf.lean`).
   Third configuration (scroll oracle `x`): the terminal is the library's xterm driver writing to an output function.  The
   harness prints no grid but the bytes the terminal was sent during each operation; they are interpreted here by the VT
   reference interpreter of C09 (`Model/VT.lean`: glyph, background colour and reverse video of every cell) and the screen
